@@ -16,8 +16,11 @@ quick = every type x every path x QUICK_SHAPES (keeps every identity value) x {n
 Text values (SQL-text paths) also contain every ordered pair of the "syntactically active" sequences of the lexers a
 statement passes through (' \\ $name $1 $$ -- /* */ %s %(x)s ? :1 ; newline), adjacent and apart (c01_model.ACTIVE_TOKENS).
 Every (type, path) batch runs in two session states: pristine, and "used" (session variables NAME and X defined -
-their names occur in the values -, USE of another schema that holds a table of the target's name and back, a cursor
-that already produced a result, a failure and a variable read).
+their names occur in the values -, USE of another schema that holds a table of the target's name and back, and on
+the same cursor, right before the writes, a failing statement for every route through cursor.execute / executemany
+(c01_model.FAILING_STATEMENTS: single step, several steps failing on name resolution - CREATE with VARCHAR(n) /
+COMMENT of an existing table, CLONE / MERGE / RENAME of a missing one -, several steps failing on data, executemany),
+then a result and a variable read).
 
 Oracle clauses
   C01.accept     the write of a representable value is accepted (no exception from execute / write_pandas)
@@ -31,6 +34,9 @@ Oracle clauses
                  row of the target table are unchanged by the writes; a source table is unchanged by CTAS / CLONE /
                  INSERT..SELECT
   C01.wp_result  write_pandas returns (True, nchunks, nrows = rows written, COPY results adding up to the same)
+  C01.stored     the rows are stored, not just visible to the writer: a session of the same instance opened before the
+                 batch, a session opened after it, and the writing session after conn.rollback() (no transaction is
+                 open: a no-op) all read exactly what the writing session read back.  Class = path + observer.
 
 Not demanded (left out of the product, reasons in c01_model.allowed):
   * JSON whitespace / key order; nanosecond fractions; TIMESTAMP_TZ offsets other than +00:00; TIMESTAMP_LTZ
@@ -74,6 +80,7 @@ PID = "C01"
 LEVEL = "exploration"
 
 DB, SCHEMA, SCHEMA2, SCHEMA3 = "DB1", "S1", "S2", "S3"
+OBSERVERS = ("session_opened_before", "session_opened_after", "writer_after_rollback")
 
 
 # ---- real side ------------------------------------------------------------------------------------------------------
@@ -173,175 +180,229 @@ def _bystander_diff(pre, post, target, new_tables=()):
 
 def execute_batch(ts, path, cells, state="pristine"):
     """Run one (type, path, session state) batch on a fresh instance.  Returns a picklable dict of raw observations."""
+    out = {"setup": None, "cells": {}, "readback": None, "bystander": None, "blocked": [], "stmts": 0, "views": {},
+           "unexpected_success": []}
+    with _instance(path) as (fs, conn):
+        # a second session of the same instance, opened BEFORE the batch: one of the observers of C01.stored
+        obs_before = _try(lambda: fs.connect(database=DB, schema=SCHEMA))
+        targets = _batch_body(ts, path, cells, state, fs, conn, out)
+        if targets is None:
+            return out
+
+        def view(c):
+            rows = []
+            k = c.cursor()
+            for t in targets:
+                out["stmts"] += 1
+                rows.extend(k.execute(f"SELECT ID, V FROM {t}").fetchall())
+            return rows
+
+        # Every statement ran in autocommit: what the writing session reads back must be what everybody else reads -
+        # a session opened before the writes, a session opened after them - and must still be there after a ROLLBACK
+        # issued outside any transaction (a no-op in Snowflake; connection pools issue it routinely).
+        if obs_before[0] == "ok":
+            out["views"]["session_opened_before"] = _try(lambda: view(obs_before[1]))
+        else:
+            out["views"]["session_opened_before"] = obs_before
+        out["views"]["session_opened_after"] = _try(lambda: view(fs.connect(database=DB, schema=SCHEMA)))
+        rb = _try(lambda: conn.rollback())
+        out["views"]["writer_after_rollback"] = _try(lambda: view(conn)) if rb[0] == "ok" else rb
+    return out
+
+
+def _batch_body(ts, path, cells, state, fs, conn, out):
+    """Set-up, the writes of every cell, the read-back on the writing connection.  Returns the fully qualified tables
+    that hold the written rows (None when the set-up failed)."""
     sqlt = ts["sql"]
     vals = M.values_for(ts)
     by_rows = [(-1, vals[0][1]), (-2, None), (-3, vals[-1][1] if ts["family"] != "fixed0" else vals[1][1])]
-    out = {"setup": None, "cells": {}, "readback": None, "bystander": None, "blocked": [], "stmts": 0}
-    with _instance(path) as (fs, conn):
-        cur = conn.cursor()
-        rawc = observe.raw(fs)
-        q = f'"{DB}"."{SCHEMA}"'
+    cur = conn.cursor()
+    rawc = observe.raw(fs)
+    q = f'"{DB}"."{SCHEMA}"'
 
-        def ex(sql, params=None):
-            out["stmts"] += 1
-            return cur.execute(sql, params) if params is not None else cur.execute(sql)
+    def ex(sql, params=None):
+        out["stmts"] += 1
+        return cur.execute(sql, params) if params is not None else cur.execute(sql)
 
-        # ---- session state "used": the writes do not happen in a pristine session.  Session variables whose names
-        # occur in the values are defined, the session has been in another schema (holding a table of the target's
-        # name) and came back, and the cursor has already produced a result, a failure and a variable read. ----
-        if state == "used":
-            try:
-                for name, value in M.SESSION_VARIABLES:
-                    ex(f"SET {name} = {value}")
-                ex(f"CREATE SCHEMA {SCHEMA3}")
-                ex(f"USE SCHEMA {SCHEMA3}")
-                ex(f"CREATE TABLE T1 (ID INT, V {sqlt})")
-                _raw_insert(rawc, f'"{DB}"."{SCHEMA3}".T1', ts, by_rows[:2])
-                ex(f"USE SCHEMA {SCHEMA}")
-                ex("SELECT 1").fetchall()
-                with contextlib.suppress(Exception):
-                    ex("SELECT * FROM NO_SUCH_TABLE")
-                live = ex("SELECT $name, $x").fetchall()
-                if [tuple(r) for r in live] != [(42, "VARVAL")]:
-                    raise RuntimeError(f"session variables not live: {live!r}")
-            except Exception as e:  # noqa: BLE001
-                out["setup"] = _err(e)
-                return out
-
-        # ---- set-up: bystander table (+ bystander rows in the target) ----
+    # ---- session state "used": the writes do not happen in a pristine session.  Session variables whose names
+    # occur in the values are defined, the session has been in another schema (holding a table of the target's
+    # name) and came back; the failing statements follow after the set-up. ----
+    if state == "used":
         try:
-            ex(f"CREATE TABLE BY1 (ID INT, V {sqlt})")
-            _raw_insert(rawc, f"{q}.BY1", ts, by_rows)
-            target = f"{DB}.{SCHEMA}.T1"
-            new_tables = ()
-            if path in M.SQL_PATHS or path in ("wp", "wp_opts", "insert_select"):
-                ex(f"CREATE TABLE T1 (ID INT, V {sqlt})")
-                _raw_insert(rawc, f"{q}.T1", ts, by_rows[:2])
-            elif path == "wp_subset":
-                ex(f"CREATE TABLE T1 (ID INT, X VARCHAR, V {sqlt})")
-                rawc.execute(f"insert into {q}.T1 values (-1, 'keep', ?)", [by_rows[0][1]])
-            elif path == "wp_dbschema":
-                ex(f"CREATE SCHEMA {SCHEMA2}")
-                ex(f"CREATE TABLE {SCHEMA2}.T1 (ID INT, V {sqlt})")
-                ex(f"CREATE TABLE T1 (ID INT, V {sqlt})")  # same name in the *current* schema: must stay untouched
-                _raw_insert(rawc, f'"{DB}"."{SCHEMA2}".T1', ts, by_rows[:2])
-                _raw_insert(rawc, f"{q}.T1", ts, by_rows[:2])
-                target = f"{DB}.{SCHEMA2}.T1"
-            if path in M.DERIVED_PATHS:
-                ex(f"CREATE TABLE STG (ID INT, V {sqlt})")
+            for name, value in M.SESSION_VARIABLES:
+                ex(f"SET {name} = {value}")
+            ex(f"CREATE SCHEMA {SCHEMA3}")
+            ex(f"USE SCHEMA {SCHEMA3}")
+            ex(f"CREATE TABLE T1 (ID INT, V {sqlt})")
+            _raw_insert(rawc, f'"{DB}"."{SCHEMA3}".T1', ts, by_rows[:2])
+            ex(f"USE SCHEMA {SCHEMA}")
         except Exception as e:  # noqa: BLE001
             out["setup"] = _err(e)
-            return out
+            return None
 
-        # ---- derived paths: stage through raw DuckDB, verify the source through fakesnow ----
+    # ---- set-up: bystander table (+ bystander rows in the target) ----
+    try:
+        ex(f"CREATE TABLE BY1 (ID INT, V {sqlt})")
+        _raw_insert(rawc, f"{q}.BY1", ts, by_rows)
+        target = f"{DB}.{SCHEMA}.T1"
+        new_tables = ()
+        if path in M.SQL_PATHS or path in ("wp", "wp_opts", "insert_select"):
+            ex(f"CREATE TABLE T1 (ID INT, V {sqlt})")
+            _raw_insert(rawc, f"{q}.T1", ts, by_rows[:2])
+        elif path == "wp_subset":
+            ex(f"CREATE TABLE T1 (ID INT, X VARCHAR, V {sqlt})")
+            rawc.execute(f"insert into {q}.T1 values (-1, 'keep', ?)", [by_rows[0][1]])
+        elif path == "wp_dbschema":
+            ex(f"CREATE SCHEMA {SCHEMA2}")
+            ex(f"CREATE TABLE {SCHEMA2}.T1 (ID INT, V {sqlt})")
+            ex(f"CREATE TABLE T1 (ID INT, V {sqlt})")  # same name in the *current* schema: must stay untouched
+            _raw_insert(rawc, f'"{DB}"."{SCHEMA2}".T1', ts, by_rows[:2])
+            _raw_insert(rawc, f"{q}.T1", ts, by_rows[:2])
+            target = f"{DB}.{SCHEMA2}.T1"
         if path in M.DERIVED_PATHS:
-            staged = {}
-            for c in cells:
-                try:
-                    _raw_insert(rawc, f"{q}.STG", ts, c["rows"])
-                    staged[c["k"]] = True
-                except Exception as e:  # noqa: BLE001
-                    # duckdb rolls back the failing statement only; earlier rows of this cell stay: remove them
-                    rawc.execute(f"delete from {q}.STG where ID between ? and ?", [c["rows"][0][0], c["rows"][-1][0]])
-                    staged[c["k"]] = False
-                    out["blocked"].append((c["k"], "stage:" + type(e).__name__))
-            src = _try(lambda: ex("SELECT ID, V FROM STG").fetchall())
-            if src[0] != "ok":
-                out["setup"] = src
-                return out
-            srcmap = {}
-            for r in src[1]:
-                srcmap.setdefault(int(r[0]), []).append(r[1])
-            for c in cells:
-                if not staged[c["k"]]:
-                    continue
-                good = all(len(srcmap.get(i, [])) == 1 and M.same_value(ts, v, srcmap[i][0]) for i, v in c["rows"])
-                if not good:
-                    out["blocked"].append((c["k"], "source_readback"))
-            pre = _user_digest(fs)
-            if path == "insert_select":
-                act = _try(lambda: ex("INSERT INTO T1 (ID, V) SELECT ID, V FROM STG") and None)
-            elif path == "ctas":
-                act = _try(lambda: ex("CREATE TABLE T1 AS SELECT ID, V FROM STG") and None)
-                new_tables = (target,)
-            else:
-                act = _try(lambda: ex("CREATE TABLE T1 CLONE STG") and None)
-                new_tables = (target,)
-            for c in cells:
-                out["cells"][c["k"]] = {"act": act if act[0] != "ok" else ("ok",)}
-            rb = _try(lambda: ex("SELECT ID, V FROM T1").fetchall())
-            out["readback"] = rb
-            out["bystander"] = _bystander_diff(pre, _user_digest(fs), target, new_tables)
-            return out
+            ex(f"CREATE TABLE STG (ID INT, V {sqlt})")
+    except Exception as e:  # noqa: BLE001
+        out["setup"] = _err(e)
+        return None
 
-        # ---- SQL-text paths ----
-        if path in M.SQL_PATHS:
-            pre = _user_digest(fs)
-            for c in cells:
-                sql, params = M.build_insert(ts, "T1", c["rows"], path)
-                r = _try(lambda: ex(sql, params) and None)
-                out["cells"][c["k"]] = {"act": r if r[0] != "ok" else ("ok",), "sql": sql}
-            out["readback"] = _try(lambda: ex("SELECT ID, V FROM T1").fetchall())
-            out["bystander"] = _bystander_diff(pre, _user_digest(fs), target)
-            return out
+    # ---- session state "used", second part (after the committed set-up, right before the writes): statements that
+    # FAIL, one for every route a statement takes through cursor.execute / executemany (c01_model.FAILING_STATEMENTS),
+    # then a result and a variable read on the same cursor.  A failed statement must leave nothing behind - in
+    # particular no open transaction: that is what the observers of C01.stored see. ----
+    if state == "used":
+        ph = "?" if path == "qmark" else "%s"
+        for kind, sql in M.FAILING_STATEMENTS:
+            sql = sql.format(ph=ph, s3=SCHEMA3)
+            try:
+                out["stmts"] += 1
+                if kind == "executemany":
+                    cur.executemany(sql, [(1,), (2,)])
+                else:
+                    cur.execute(sql)
+                out["unexpected_success"].append(sql)
+            except Exception:  # noqa: BLE001
+                pass
+        try:
+            ex("SELECT 1").fetchall()
+            live = ex("SELECT $name, $x").fetchall()
+            if [tuple(r) for r in live] != [(42, "VARVAL")]:
+                raise RuntimeError(f"session variables not live: {live!r}")
+        except Exception as e:  # noqa: BLE001
+            out["setup"] = _err(e)
+            return None
 
-        # ---- write_pandas ----
-        import pandas as pd
-
-        from fakesnow.pandas_tools import write_pandas
-
-        pre = _user_digest(fs)
-        auto_rows = []
-        auto_tables = []
+    # ---- derived paths: stage through raw DuckDB, verify the source through fakesnow ----
+    if path in M.DERIVED_PATHS:
+        staged = {}
         for c in cells:
-            ids = [i for i, _ in c["rows"]]
-            col = M.df_column(ts, [v for _, v in c["rows"]])
-            idcol = pd.Series(ids, dtype="int64")
-            kw = {}
-            if ts["family"] == "tz":
-                kw["use_logical_type"] = True  # needed by the real connector for tz-aware columns
-            if path == "wp_subset":
-                df = pd.DataFrame({"V": col, "ID": idcol})
-                name = "T1"
-            elif path == "wp_dbschema":
-                df = pd.DataFrame({"ID": idcol, "V": col})
-                name = "T1"
-                kw.update(database=DB, schema=SCHEMA2)
-            elif path == "wp_auto":
-                df = pd.DataFrame({"ID": idcol, "V": col})
-                name = f"A{c['k']}"
-                kw.update(auto_create_table=True)
-                auto_tables.append(f"{DB}.{SCHEMA}.{name}")
-            else:
-                df = pd.DataFrame({"ID": idcol, "V": col})
-                name = "T1"
-            if path == "wp_opts":
-                o = c["opts"]
-                labels = M.df_index(o["index"], len(ids))
-                if labels is not None:
-                    df.index = labels
-                kw.update(chunk_size=o["chunk_size"], parallel=o["parallel"], quote_identifiers=o["quote_identifiers"])
-            out["stmts"] += 1
-            r = _try(lambda: write_pandas(conn, df, name, **kw))
-            rec = {"act": ("ok",) if r[0] == "ok" else r, "dtype": M.df_dtype_label(ts, [v for _, v in c["rows"]])}
-            if r[0] == "ok":
-                rec["wp_ok"] = M.check_wp_result(r[1], len(ids))
-                rec["wp_ret"] = repr(r[1])[:200]
-                if path == "wp_auto":
-                    rb = _try(lambda: ex(f"SELECT ID, V FROM {name}").fetchall())
-                    if rb[0] == "ok":
-                        auto_rows.extend(rb[1])
-                    else:
-                        rec["act"] = rb  # table not readable: the write is not usable
-            out["cells"][c["k"]] = rec
-        if path == "wp_auto":
-            out["readback"] = ("ok", auto_rows)
-            out["bystander"] = _bystander_diff(pre, _user_digest(fs), None, tuple(auto_tables))
+            try:
+                _raw_insert(rawc, f"{q}.STG", ts, c["rows"])
+                staged[c["k"]] = True
+            except Exception as e:  # noqa: BLE001
+                # duckdb rolls back the failing statement only; earlier rows of this cell stay: remove them
+                rawc.execute(f"delete from {q}.STG where ID between ? and ?", [c["rows"][0][0], c["rows"][-1][0]])
+                staged[c["k"]] = False
+                out["blocked"].append((c["k"], "stage:" + type(e).__name__))
+        src = _try(lambda: ex("SELECT ID, V FROM STG").fetchall())
+        if src[0] != "ok":
+            out["setup"] = src
+            return None
+        srcmap = {}
+        for r in src[1]:
+            srcmap.setdefault(int(r[0]), []).append(r[1])
+        for c in cells:
+            if not staged[c["k"]]:
+                continue
+            good = all(len(srcmap.get(i, [])) == 1 and M.same_value(ts, v, srcmap[i][0]) for i, v in c["rows"])
+            if not good:
+                out["blocked"].append((c["k"], "source_readback"))
+        pre = _user_digest(fs)
+        if path == "insert_select":
+            act = _try(lambda: ex("INSERT INTO T1 (ID, V) SELECT ID, V FROM STG") and None)
+        elif path == "ctas":
+            act = _try(lambda: ex("CREATE TABLE T1 AS SELECT ID, V FROM STG") and None)
+            new_tables = (target,)
         else:
-            sel = "SELECT ID, V, X FROM T1" if path == "wp_subset" else f"SELECT ID, V FROM {target}"
-            out["readback"] = _try(lambda: ex(sel).fetchall())
-            out["bystander"] = _bystander_diff(pre, _user_digest(fs), target)
-        return out
+            act = _try(lambda: ex("CREATE TABLE T1 CLONE STG") and None)
+            new_tables = (target,)
+        for c in cells:
+            out["cells"][c["k"]] = {"act": act if act[0] != "ok" else ("ok",)}
+        rb = _try(lambda: ex("SELECT ID, V FROM T1").fetchall())
+        out["readback"] = rb
+        out["bystander"] = _bystander_diff(pre, _user_digest(fs), target, new_tables)
+        return [target]
+
+    # ---- SQL-text paths ----
+    if path in M.SQL_PATHS:
+        pre = _user_digest(fs)
+        for c in cells:
+            sql, params = M.build_insert(ts, "T1", c["rows"], path)
+            r = _try(lambda: ex(sql, params) and None)
+            out["cells"][c["k"]] = {"act": r if r[0] != "ok" else ("ok",), "sql": sql}
+        out["readback"] = _try(lambda: ex("SELECT ID, V FROM T1").fetchall())
+        out["bystander"] = _bystander_diff(pre, _user_digest(fs), target)
+        return [target]
+
+    # ---- write_pandas ----
+    import pandas as pd
+
+    from fakesnow.pandas_tools import write_pandas
+
+    pre = _user_digest(fs)
+    auto_rows = []
+    auto_tables = []
+    auto_ok = []
+    for c in cells:
+        ids = [i for i, _ in c["rows"]]
+        col = M.df_column(ts, [v for _, v in c["rows"]])
+        idcol = pd.Series(ids, dtype="int64")
+        kw = {}
+        if ts["family"] == "tz":
+            kw["use_logical_type"] = True  # needed by the real connector for tz-aware columns
+        if path == "wp_subset":
+            df = pd.DataFrame({"V": col, "ID": idcol})
+            name = "T1"
+        elif path == "wp_dbschema":
+            df = pd.DataFrame({"ID": idcol, "V": col})
+            name = "T1"
+            kw.update(database=DB, schema=SCHEMA2)
+        elif path == "wp_auto":
+            df = pd.DataFrame({"ID": idcol, "V": col})
+            name = f"A{c['k']}"
+            kw.update(auto_create_table=True)
+            auto_tables.append(f"{DB}.{SCHEMA}.{name}")
+        else:
+            df = pd.DataFrame({"ID": idcol, "V": col})
+            name = "T1"
+        if path == "wp_opts":
+            o = c["opts"]
+            labels = M.df_index(o["index"], len(ids))
+            if labels is not None:
+                df.index = labels
+            kw.update(chunk_size=o["chunk_size"], parallel=o["parallel"], quote_identifiers=o["quote_identifiers"])
+        out["stmts"] += 1
+        r = _try(lambda: write_pandas(conn, df, name, **kw))
+        rec = {"act": ("ok",) if r[0] == "ok" else r, "dtype": M.df_dtype_label(ts, [v for _, v in c["rows"]])}
+        if r[0] == "ok":
+            rec["wp_ok"] = M.check_wp_result(r[1], len(ids))
+            rec["wp_ret"] = repr(r[1])[:200]
+            if path == "wp_auto":
+                rb = _try(lambda: ex(f"SELECT ID, V FROM {name}").fetchall())
+                if rb[0] == "ok":
+                    auto_rows.extend(rb[1])
+                    auto_ok.append(f"{DB}.{SCHEMA}.{name}")
+                else:
+                    rec["act"] = rb  # table not readable: the write is not usable
+        out["cells"][c["k"]] = rec
+    if path == "wp_auto":
+        out["readback"] = ("ok", auto_rows)
+        out["bystander"] = _bystander_diff(pre, _user_digest(fs), None, tuple(auto_tables))
+        return auto_ok
+    else:
+        sel = "SELECT ID, V, X FROM T1" if path == "wp_subset" else f"SELECT ID, V FROM {target}"
+        out["readback"] = _try(lambda: ex(sel).fetchall())
+        out["bystander"] = _bystander_diff(pre, _user_digest(fs), target)
+    return [target]
 
 
 # ---- classifier ---------------------------------------------------------------------------------------------------
@@ -402,6 +463,17 @@ def judge(ts, path, cells, out, acc, tier, verbose=None, state="pristine"):
         got.setdefault(int(r[0]), []).append(tuple(r[1:]))
     blocked = {k for k, _ in out["blocked"]}
     known_ids = set()
+    views = {}
+    for oname, v in out.get("views", {}).items():
+        if v[0] == "ok":
+            m = {}
+            for r in v[1]:
+                m.setdefault(int(r[0]), []).append(r[1])
+            views[oname] = ("ok", m)
+        else:
+            views[oname] = v
+    for sql in out.get("unexpected_success", ()):
+        acc.note(f"a statement of the used-session set-up that is expected to fail succeeded: {sql[:80]}")
     for c in cells:
         k = c["k"]
         acc.count("evaluations")
@@ -425,6 +497,23 @@ def judge(ts, path, cells, out, acc, tier, verbose=None, state="pristine"):
             report("C01.wp_result", c, rec, not rec["wp_ok"], {"returned": rec["wp_ret"], "rows": len(c["rows"])})
         if not once:
             continue
+        # C01.stored: the other observers see exactly what the writing session read back
+        for oname in OBSERVERS:
+            v = views.get(oname)
+            if v is None:
+                continue
+            if v[0] != "ok":
+                ok_o, det = False, {"observer": oname, "error": v}
+            else:
+                seen = {i: v[1].get(i, []) for i, _ in c["rows"]}
+                ok_o = all(len(seen[i]) == 1 and repr(seen[i][0]) == repr(got[i][0][0]) for i, _ in c["rows"])
+                det = {"observer": oname, "writer_read": {i: got[i][0][0] for i, _ in c["rows"]}, "observer_read": seen, "session": state}
+            cls = f"path={path},observer={oname}"
+            acc.member("C01.stored", cls, not ok_o)
+            if not ok_o:
+                acc.violation("C01.stored", cls, det, dict(item, shape=c["shape"], null=c["null"]))
+            if verbose is not None and (c["shape"], c["null"]) == verbose:
+                print(f"  {'C01.stored':14s} {'ok  ' if ok_o else 'FAIL'} class={cls} {'' if ok_o else det}")
         bad = set()
         first = {}
         for i, v in c["rows"]:
@@ -465,7 +554,8 @@ def run_batch(item, acc: core.Acc, tier):
     local.add("engine_default_timezone", _engine_default_tz())
     local.count("batches")
     local.count("statements", out["stmts"])
-    local.obs((item, out["setup"], sorted(out["blocked"]), repr(out["readback"]), repr(sorted(out["cells"].items())), out["bystander"]))
+    local.obs((item, out["setup"], sorted(out["blocked"]), repr(out["readback"]), repr(sorted(out["cells"].items())), out["bystander"],
+               repr(sorted(out["views"].items())), out["unexpected_success"]))
     judge(ts, path, cells, out, local, tier, state=state)
     c = cells[min(1, len(cells) - 1)]
     sample = core.jsonable({"type": tname, "path": path, "session": state, "shape": c["shape"], "null_placement": c["null"],
